@@ -18,16 +18,33 @@ from . import report
 from .loader import AnchorError, Repo, Undecided
 
 
-def run_property(pid, tier, repo, seed=0):
+def run_property(pid, tier, repo, seed=0, strict=False):
+    """Run every rule.  A rule that cannot decide (vanished anchor,
+    unrecognised shape, engine exception) is recorded in `ctx.undecided`
+    and the remaining rules still run: a violation found by another rule
+    stands, "cannot decide" is reported only when nothing was violated.
+    `strict=True` re-raises immediately (used by the variant self-test)."""
     mod = importlib.import_module(f"nanite_sa.props.{pid.lower()}")
     ctx = report.Ctx(pid, tier, repo, seed)
-    for rid, _title, fn in mod.RULES:
-        ctx.rule = rid
-        fn(ctx)
+    ctx.undecided = []
+    rules = list(mod.RULES)
     if tier == "thorough":
-        for rid, _title, fn in getattr(mod, "THOROUGH_RULES", []):
-            ctx.rule = rid
+        rules += list(getattr(mod, "THOROUGH_RULES", []))
+    for rid, _title, fn in rules:
+        ctx.rule = rid
+        try:
             fn(ctx)
+        except (AnchorError, Undecided) as e:
+            if strict:
+                raise
+            ctx.undecided.append((rid, f"{type(e).__name__}: {e}"))
+        except Exception as e:      # engine bug: never a silent pass
+            if strict:
+                raise
+            ctx.undecided.append((rid, "engine exception: " + "".join(
+                traceback.format_exception_only(type(e), e)).strip()
+                + " @ " + traceback.format_tb(e.__traceback__)[-1].strip()
+                .replace("\n", " ")))
     return mod, ctx
 
 
@@ -113,6 +130,12 @@ def main(argv=None):
     if not args.no_evidence:
         report.write_evidence(pid, args.tier, seed, ctx, mod,
                               time.time() - t0, len(new), known_hits, extra)
+    for rid, why in getattr(ctx, "undecided", []):
+        if new:
+            print(f"UNDECIDED property={pid} {rid}: {why}")
+        else:
+            print(f"ANALYSIS-ERROR property={pid} {rid}: {why}")
+            rc = 2
     for n, inst in enumerate(new):
         rp = report.write_replay(pid, n, inst)
         print(f"{inst.rule} {inst.file}:{inst.line} {inst.function}: "
